@@ -169,6 +169,19 @@ def gen_child_case(g, cid, opts=None):
         cls = "interleaved"
         order = perm_class_order(g, fields, cls)
     fc.perm = cls
+    # a top-level member may be *named* like a nested struct's path (its own counterpart field has another name): it still is a top-level member
+    fc.collide = None
+    tops = [f for f in order if f["path"] == () and f["k_from"] is None]
+    kids = [fn for fn, _ in fc.root.children if not str(fn).isdigit()]
+    if tops and kids and g.chance(0.15) and not fc.from_only:
+        f = r.choice(tops)
+        fn = r.choice(kids)
+        if any(x["path"][:1] == (fn,) for x in order) and not any(x["sname"] == fn for x in order):
+            f["sname"], f["rename"] = fn, True
+            order.remove(f)
+            last = max(i for i, x in enumerate(order) if x["path"][:1] == (fn,))
+            order.insert(last + 1, f)
+            fc.collide = fn
     if fc.tuple_into:
         # a tuple-form nested struct is filled positionally: its members keep ascending index order among themselves
         tpaths = {p for p, n in walk(fc.root) if n.tuple}
